@@ -1,5 +1,6 @@
 """C19 - tolerance is uniform and follows set_eps / set_sig_figures (configuration histories)."""
 import math
+import os
 import decimal
 import itertools
 from fractions import Fraction as F
@@ -185,8 +186,8 @@ class Executor(object):
     def start(self):
         verify_catalogue()
         G = lib()
-        G.set_eps()
-        G.set_sig_figures()
+        self.guard("set_eps()", lambda: G.set_eps())
+        self.guard("set_sig_figures()", lambda: G.set_sig_figures())
         if G.get_eps() != 1e-10 or G.get_sig_figures() != 10:
             raise Fail("defaults are not eps=1e-10 / 10 significant figures", {"eps": G.get_eps(), "sig": G.get_sig_figures()}, self.facts)
         self.config_invariant("initial")
@@ -376,9 +377,9 @@ def run_history(case):
         for s in case[2]:
             ex.apply(s)
     finally:
-        G = lib()
-        G.set_eps()
-        G.set_sig_figures()
+        from ..common import reset_config
+
+        reset_config()
     return ex
 
 
@@ -418,7 +419,43 @@ def account(case, ctx):
     ctx.sample(cls, case)
 
 
+def check_import_defaults(case, ctx):
+    """the configuration a fresh interpreter sees right after `import Geometry3D` (every other case runs after the
+    harness has reset the configuration through the setters, which would hide a wrong import-time value)"""
+    import subprocess, sys, json as _json
+    from ..common import REPO
+
+    ctx.cls("import-defaults")
+    ctx.nontrivial_distinct_by_construction(1)
+    ctx.sample("import-defaults", case)
+    code = (
+        "import sys, json, logging; sys.path.insert(0, %r); logging.disable(logging.CRITICAL)\n"
+        "import Geometry3D as G\n"
+        "out = {'eps': G.get_eps(), 'sig': G.get_sig_figures(), 'file': G.__file__}\n"
+        "a, b = G.Point(1, 2, 3), G.Point(1 + 1e-13, 2, 3)\n"
+        "out['near_equal'] = (a == b) is True and hash(a) == hash(b)\n"
+        "out['far_unequal'] = (G.Point(1, 2, 3) != G.Point(1 + 4.5e-10, 2, 3)) is True\n"
+        "la, lb = G.Line(G.Point(1, 2, 3), G.Vector(2, 2, 1)), G.Line(G.Point(1 + 1e-13, 2, 3), G.Vector(2, 2, 1))\n"
+        "out['lines'] = (la == lb) is True and hash(la) == hash(lb)\n"
+        "print('RESULT ' + json.dumps(out))\n"
+    ) % os.path.abspath(REPO)
+    r = subprocess.run([sys.executable, "-c", code], capture_output=True, text=True, env=dict(os.environ, PYTHONDONTWRITEBYTECODE="1"))
+    facts = {"mode": "import-defaults"}
+    line = [l for l in r.stdout.splitlines() if l.startswith("RESULT ")]
+    if r.returncode != 0 or not line:
+        raise Fail("a fresh interpreter cannot import the library and read its configuration", {"stderr": r.stderr[-600:]}, facts)
+    out = _json.loads(line[-1][7:])
+    if not os.path.abspath(out["file"]).startswith(os.path.abspath(REPO) + os.sep):
+        raise HarnessError("fresh interpreter imported Geometry3D from %s" % out["file"])
+    if out["eps"] != 1e-10 or out["sig"] != 10:
+        raise Fail("the configuration right after import is not eps=1e-10 / 10 significant figures", {"eps": out["eps"], "sig": out["sig"]}, facts)
+    if not (out["near_equal"] and out["far_unequal"] and out["lines"]):
+        raise Fail("right after import the comparisons do not follow eps=1e-10", out, facts)
+
+
 def check(case, ctx):
+    if case and case[0] == "IMPORT":
+        return check_import_defaults(case, ctx)
     account(case, ctx)
     run_history(case)
 
@@ -497,6 +534,7 @@ def enum_probes(shard, nshards):
 def strata(tier):
     q = tier == "quick"
     return [
+        Stratum("import-defaults", "once", lambda: [("IMPORT",)]),
         Stratum("probe-sweep", "enum", enum_probes),
         Stratum("config-history", "machine", machine, 640 if q else 20000),
     ]
